@@ -22,3 +22,42 @@ reg("C03", "E1 product sweep",
     "equations evaluated in exact rationals. Exhaustive over the property's own quotient, which is "
     "the right level for a pure function over a finite domain.",
     TRUST, "DESIGN.md section 3, C03")
+
+reg("C01", "E1 product sweep",
+    "explicit-state enumeration of the v3.0/v3.1 effective-assignment quotient on the real CVSS3 "
+    "class, compared point by point with an exact-rational reference model",
+    "Every point of the property's finite quotient (thorough: 2 x 2,592 x 100 temporal spellings, "
+    "2 x 2,592 x 48 x 27 environmental cases with inherited base values and the same 6.7M cases "
+    "with all eight Modified metrics overriding a differing base vector; quick: same blocks with a "
+    "12/4-point temporal skeleton) is constructed and all three scores compared with the "
+    "specification's equations in exact rationals (Roundup = ceiling to one decimal).",
+    TRUST, "DESIGN.md section 3, C01")
+
+reg("C02", "E1 product sweep",
+    "explicit-state enumeration of all 15,116,544 effective v4.0 assignments on the real CVSS4 "
+    "class, compared point by point with an exact reference implementation of spec section 8.2",
+    "Thorough: every effective assignment of the 15 scoring metrics (the property's whole "
+    "quotient) in the short spelling plus ~1M points delivered through Modified metrics/explicit X. "
+    "Quick: a skeleton containing all 270 macrovectors with each metric group freed in turn "
+    "(0.55M points, both spellings). The model derives the highest-severity vectors and depths "
+    "from the EQ definitions itself and carries its own lookup table.",
+    TRUST + " The pinned 270-row lookup table is assumed to be FIRST's.", "DESIGN.md section 3, C02")
+
+reg("C09", "E1 product sweep",
+    "explicit-state enumeration of the C01-C03 product spaces on the real classes; every reported "
+    "score/rating checked against format predicates and an independent severity scale",
+    "Every object of the enumerated spaces has each score slot checked for type float, range, "
+    "one-decimal repr, no negative zero, None only for undefined v2 groups; each rating against "
+    "the official scale; severities(), CVSS4.severity, JSON severities and the RH score text for "
+    "mutual agreement. Evidence lists which band edges were reached per slot.",
+    TRUST, "DESIGN.md section 3, C09")
+
+reg("C14", "E1 product sweep + edge relation",
+    "explicit-state exploration of the score tables as graphs: nodes scored by the real classes, "
+    "every single-step severity edge between visited nodes checked for monotonicity",
+    "Thorough: all 15.1M v4 nodes / ~150M edges, the complete v3.0 and v3.1 inherit tables "
+    "(6.7M nodes each) plus override tables on two fixed base vectors, the complete v2 "
+    "base x temporal table. Quick: the <=1-free-group node sets and all edges among them. The "
+    "oracle is relational (no expected values), with exactly the statement's exemptions.",
+    "Trusted: the severity orders typed in from the specifications; CPython.",
+    "DESIGN.md section 3, C14")
